@@ -441,20 +441,30 @@ fn refit_step(rep: &mut Report, regime: &str, model: &mut PolynomialRegressor, c
         model.fit(&c.x, &c.y);
         model.coef.clone()
     });
-    let panicked = fitted.is_err();
     let fresh = guard(|| {
         let mut twin = PolynomialRegressor::new(d);
         twin.fit(&c.x, &c.y);
         twin.coef
     });
-    // Both outcomes get the full single-fit oracle, each into a scratch report under the single-fit regime;
-    // what fails on the reused object ONLY is attributed to the history (regime `refit:*`), what fails on the
-    // fresh twin as well keeps the signature the main workload gives it.
+    judge_against_twin(rep, regime, "refit", c, fitted, fresh, &hj)
+}
+
+/// Verdict on a fit whose circumstances (`regime`: the object's or the thread's or the pool's history,
+/// described by `hj`) the property does not quantify over, against a twin fit of the same data made
+/// without those circumstances.
+/// Both outcomes get the full single-fit oracle, each into a scratch report under the single-fit regime;
+/// what fails on the fit under test ONLY is attributed to the circumstances (signed `assertion|regime`), what
+/// fails on the twin as well keeps the signature the main workload gives it. Then the two coefficient
+/// vectors are compared (`C14.refit.equals_fresh`, column-scaled difference <= 2B, not bitwise).
+/// `tag` prefixes the bookkeeping labels. Returns false if the fit under test panicked.
+fn judge_against_twin(rep: &mut Report, regime: &str, tag: &str, c: &Case, fitted: Result<Vec<f64>, String>, fresh: Result<Vec<f64>, String>, hj: &serde_json::Value) -> bool {
+    let (d, n) = (c.d, c.x.len());
+    let panicked = fitted.is_err();
     let noise = if c.sigma == 0.0 { "exact" } else { "noisy" };
     let single = format!("fit:{}:{}", c.kind, noise);
     let mut s_re = Report::new();
     s_re.case_seed = rep.case_seed;
-    let checked = check_coef(&mut s_re, c, &single, fitted, Some(&hj));
+    let checked = check_coef(&mut s_re, c, &single, fitted, Some(hj));
     let mut s_fr = Report::new();
     s_fr.case_seed = rep.case_seed;
     let fresh = check_coef(&mut s_fr, c, &single, fresh, None).map(|(fc, _)| fc);
@@ -464,10 +474,10 @@ fn refit_step(rep: &mut Report, regime: &str, model: &mut PolynomialRegressor, c
     }
     if let (Some((coef, sc)), Some(fc)) = (checked, fresh) {
         if coef.iter().zip(&fc).all(|(a, b)| a.to_bits() == b.to_bits()) {
-            rep.seen("refit:bitwise-identical-to-fresh", 1);
+            rep.seen(&format!("{}:bitwise-identical-to-fresh", tag), 1);
         }
         if sc.vacuous {
-            rep.seen("refit:vacuous-not-compared", 1);
+            rep.seen(&format!("{}:vacuous-not-compared", tag), 1);
         } else {
             // both are within B of the minimiser in the column-scaled norm (the bound `C14.reproduce.coef` uses)
             let lim = 2.0 * sc.bound;
@@ -477,8 +487,8 @@ fn refit_step(rep: &mut Report, regime: &str, model: &mut PolynomialRegressor, c
                 let r = if v == 0.0 { 0.0 } else if lim > 0.0 { v / lim } else { f64::INFINITY };
                 worst = worst.max(if r.is_nan() { f64::INFINITY } else { r });
             }
-            rep.seen("refit:compared-with-fresh", 1);
-            rep.note_max("worst_ratio.refit_vs_fresh_over_limit", worst);
+            rep.seen(&format!("{}:compared-with-fresh", tag), 1);
+            rep.note_max(&format!("worst_ratio.{}_vs_fresh_over_limit", tag), worst);
             rep.check("C14.refit.equals_fresh", regime, worst <= 1.0, || {
                 json!({"degree": d, "n": n, "kind": c.kind, "sigma": c.sigma, "x": jf(&c.x), "y": jf(&c.y), "object_history": hj,
                        "coef_reused_object": jf(&coef), "coef_fresh_object": jf(&fc), "scaled_diff_over_limit": jnum(worst), "limit_2B": lim})
@@ -659,8 +669,176 @@ fn sweep_case(d: usize, n: usize, kind: &'static str, rng: &mut Rng, rep: &mut R
     });
 }
 
+
+// ---------------------------------------------------------------------------------------------
+// a valid fit after a call that was outside the quantifier (stream 5)
+//
+// The property quantifies over data sets; what the process did before — on this thread, with this or
+// another regressor object — is not part of the quantifier. A caller who survives a panic (catch_unwind,
+// a worker thread whose panic is joined, an FFI boundary) goes on fitting on the same thread. So: a
+// twin fit of a valid data set FIRST, then 1..3 calls of `fit` with arguments outside the quantifier
+// (slices of different length, an empty slice, fewer than degree+1 points, all abscissae equal, a NaN) whose
+// own outcome — panic or value — is only recorded, then the valid data set again, on the object that went
+// through the rejected calls or on a new one. The second fit gets the full oracle and must agree with the
+// first within 2B. Each case runs on a thread of its own, so that a thread the library has left in a bad
+// state is charged to the case that caused it and to no other.
+
+const OUTSIDE: [&str; 7] = ["x-longer-than-y", "y-longer-than-x", "empty-y", "empty-x", "fewer-than-d+1-points", "all-abscissae-equal", "nan-in-data"];
+
+fn outside_call(rng: &mut Rng, kind: &str, d: usize, n: usize) -> (Vec<f64>, Vec<f64>) {
+    let xs = |rng: &mut Rng, k: usize| -> Vec<f64> { (0..k).map(|_| rng.range(-2.0, 2.0)).collect() };
+    match kind {
+        "x-longer-than-y" => {
+            let extra = *rng.choose(&[1usize, 1, 2, 7]);
+            (xs(rng, n + extra), xs(rng, n))
+        }
+        "y-longer-than-x" => {
+            let extra = *rng.choose(&[1usize, 1, 2, 7]);
+            (xs(rng, n), xs(rng, n + extra))
+        }
+        "empty-y" => (xs(rng, n), vec![]),
+        "empty-x" => (vec![], xs(rng, n)),
+        "fewer-than-d+1-points" => {
+            let k = rng.usize(1, d.max(1));
+            (xs(rng, k), xs(rng, k))
+        }
+        "all-abscissae-equal" => (vec![rng.range(-2.0, 2.0); n], xs(rng, n)),
+        _ => {
+            let (mut x, mut y) = (xs(rng, n), xs(rng, n));
+            if rng.bool() {
+                x[rng.usize(0, n - 1)] = f64::NAN;
+            } else {
+                y[rng.usize(0, n - 1)] = f64::NAN;
+            }
+            (x, y)
+        }
+    }
+}
+
+fn after_outside_case(i: usize, small: bool, rng: &mut Rng, rep: &mut Report) {
+    let d = i % 7;
+    let kind = OUTSIDE[(i / 7) % OUTSIDE.len()];
+    let same_object = (i / 49) % 2 == 0;
+    let (akind, exact_int) = refit_kind(rng, d);
+    let n = if small { draw_n(rng, d).min(d + 40) } else { draw_n(rng, d) };
+    let c = build_case(rng, akind, d, n, exact_int);
+    let ncalls = rng.usize(1, 3);
+    let calls: Vec<(Vec<f64>, Vec<f64>)> = (0..ncalls).map(|_| { let m = rng.usize(d + 2, 40); outside_call(rng, kind, d, m) }).collect();
+    let regime = if (i / 7) % OUTSIDE.len() < 4 { "after-outside-call:length-mismatch" } else { "after-outside-call:degenerate-data" };
+    let seed = rep.case_seed;
+    // the whole history on one thread of its own
+    let local = std::thread::scope(|s| {
+        s.spawn(|| {
+            let mut rep = Report::new();
+            rep.case_seed = seed;
+            rep.case(regime);
+            rep.seen(&format!("after-outside-call:{}", kind), 1);
+            rep.seen(if same_object { "after-outside-call:same-object" } else { "after-outside-call:new-object" }, 1);
+            rep.distinct(Hasher::new().s(regime).s(kind).u(same_object as u64).u(d as u64).u(n as u64).f(c.sigma).f(c.x[0]).f(c.y[0]).finish(), d >= 1 && c.sigma > 0.0 && n > d + 1);
+            let twin = guard(|| {
+                let mut t = PolynomialRegressor::new(d);
+                t.fit(&c.x, &c.y);
+                t.coef
+            });
+            let mut model = PolynomialRegressor::new(d);
+            let mut outcomes = Vec::new();
+            for (x, y) in &calls {
+                match guard(|| {
+                    model.fit(x, y);
+                }) {
+                    Ok(()) => {
+                        rep.seen("outside-call:returned", 1);
+                        outcomes.push(json!({"x_len": x.len(), "y_len": y.len(), "outcome": "returned"}));
+                    }
+                    Err(msg) => {
+                        rep.seen("outside-call:panicked", 1);
+                        outcomes.push(json!({"x_len": x.len(), "y_len": y.len(), "outcome": {"panic": msg}}));
+                    }
+                }
+            }
+            let hj = json!({"earlier_calls_of_fit_on_this_thread": {"class": kind, "calls": outcomes}, "final_fit_on": if same_object { "the object that went through those calls" } else { "a new regressor" },
+                            "twin": "a new regressor fitted on the same data on this thread before those calls"});
+            let fitted = guard(|| {
+                if !same_object {
+                    model = PolynomialRegressor::new(d);
+                }
+                model.fit(&c.x, &c.y);
+                model.coef.clone()
+            });
+            judge_against_twin(&mut rep, regime, "after-outside-call", &c, fitted, twin, &hj);
+            rep
+        })
+        .join()
+    });
+    match local {
+        Ok(l) => rep.merge(l),
+        Err(_) => rep.inconclusive(format!("C14: harness thread of an after-outside-call case died (case_seed {})", seed)),
+    }
+}
+
+// ---------------------------------------------------------------------------------------------
+// the ambient thread pool (stream 6)
+//
+// The property quantifies over data sets, not over the machine: the same data must give the least-squares
+// polynomial on a laptop and on a 128-thread node. The size of rayon's current pool is the one piece of
+// "machine" a library call can see, and `ThreadPool::install` lets a test choose it. Every case is fitted
+// outside any pool (the twin, full oracle) and inside pools of 1, 2, 33, 48, 64 and 128 threads; every pool
+// fit gets the full oracle and must agree with the twin within 2B (`|pool:threads=T`). Sizes: the whole
+// distribution of the main workload, a uniform draw from 1024..2000, 300..2000, and powers of two +-1.
+
+const POOL_SIZES: [usize; 6] = [1, 2, 33, 48, 64, 128];
+
+fn panic_text(p: Box<dyn std::any::Any + Send>) -> String {
+    if let Some(s) = p.downcast_ref::<&str>() {
+        s.to_string()
+    } else if let Some(s) = p.downcast_ref::<String>() {
+        s.clone()
+    } else {
+        "<non-string panic payload>".to_string()
+    }
+}
+
+fn pool_case(i: usize, pools: &[(usize, rayon::ThreadPool)], rng: &mut Rng, rep: &mut Report) {
+    let d = i % 7;
+    // the first seven cases (all a lite run has) take the large sizes
+    let n = match (i / 7) % 4 {
+        1 => draw_n(rng, d),
+        0 => rng.usize(1024, 2000),
+        2 => rng.usize(300, 2000),
+        _ => {
+            let k = rng.usize(4, 10);
+            ((1usize << k) + rng.usize(0, 2)).saturating_sub(1).max(d + 1)
+        }
+    };
+    let (kind, exact_int) = refit_kind(rng, d);
+    let c = build_case(rng, kind, d, n, exact_int);
+    rep.seen(if n >= 1024 { "pool:n>=1024" } else if n >= 256 { "pool:256<=n<1024" } else { "pool:n<256" }, 1);
+    let twin = guard(|| {
+        let mut t = PolynomialRegressor::new(d);
+        t.fit(&c.x, &c.y);
+        t.coef
+    });
+    for (threads, pool) in pools {
+        let regime = format!("pool:threads={}", threads);
+        rep.case(&regime);
+        rep.distinct(Hasher::new().s(&regime).u(d as u64).u(n as u64).f(c.sigma).f(c.x[0]).f(c.y[0]).finish(), d >= 1 && c.sigma > 0.0 && n > d + 1);
+        crate::report::install_panic_hook();
+        // the panic of a pool worker is re-thrown here; its text is in the payload (the hook's note is on the worker)
+        let fitted = std::panic::catch_unwind(std::panic::AssertUnwindSafe(|| {
+            pool.install(|| {
+                let mut m = PolynomialRegressor::new(d);
+                m.fit(&c.x, &c.y);
+                m.coef
+            })
+        }))
+        .map_err(panic_text);
+        let hj = json!({"fitted_inside": format!("rayon::ThreadPoolBuilder::new().num_threads({}).build().install(..)", threads), "twin": "the same data fitted outside any pool"});
+        judge_against_twin(rep, &regime, "pool", &c, fitted, twin.clone(), &hj);
+    }
+}
+
 pub fn run(cfg: &Cfg, rep: &mut Report) {
-    rep.rule = "case i: abscissa kind = i mod 4 (uniform, clustered, Chebyshev, integer lattice in [-2,2]), degree = (i/4) mod 7 (integer lattice: <= 4), n in {d+1, d+2..30, 30..300, 300..2000}, y = polynomial(coef in [-3,3]) + sigma*normal with sigma = 0 (20%) or log-uniform 1e-8..1e4; exact-integer cases: lattice abscissae, integer coefficients in -5..5, degree <= 3, no noise. Then direct predict cases with arbitrary distinct coefficients. Then refit histories on ONE regressor object (degree = i mod 7): fit A then B with another n; fit A, B, C; public coef field preset then fit — each refit gets the full single-fit oracle and is compared with a fresh regressor. Then the size sweep: every degree 0..6 with EVERY n in degree+1..2000 (quick: abscissa kind rotating with n; thorough: all four kinds), fresh regressor, cheap f64 oracle (no panic, shape, finite, orthogonality within 2B). non-trivial = degree >= 1, noise > 0 and n > d+1 (optimality rather than interpolation); distinct by (kind, degree, n, sigma, first/last point)".into();
+    rep.rule = "case i: abscissa kind = i mod 4 (uniform, clustered, Chebyshev, integer lattice in [-2,2]), degree = (i/4) mod 7 (integer lattice: <= 4), n in {d+1, d+2..30, 30..300, 300..2000}, y = polynomial(coef in [-3,3]) + sigma*normal with sigma = 0 (20%) or log-uniform 1e-8..1e4; exact-integer cases: lattice abscissae, integer coefficients in -5..5, degree <= 3, no noise. Then direct predict cases with arbitrary distinct coefficients. Then refit histories on ONE regressor object (degree = i mod 7): fit A then B with another n; fit A, B, C; public coef field preset then fit — each refit gets the full single-fit oracle and is compared with a fresh regressor. Then the size sweep: every degree 0..6 with EVERY n in degree+1..2000 (quick: abscissa kind rotating with n; thorough: all four kinds), fresh regressor, cheap f64 oracle (no panic, shape, finite, orthogonality within 2B). Then histories on a thread of their own: twin fit of a valid data set, 1..3 calls of fit outside the quantifier (case i: degree = i mod 7, class = (i/7) mod 7 of {x longer, y longer, empty y, empty x, fewer than d+1 points, equal abscissae, NaN}, same / new object by (i/49) mod 2), then the valid data set again — full oracle and agreement with the twin. Then every case fitted outside any rayon pool and inside pools of 1, 2, 33, 48, 64, 128 threads (n: main distribution | uniform 1024..2000 | uniform 300..2000 | 2^k-1..2^k+1, k = 4..10) — full oracle on every pool fit and agreement with the outside fit. non-trivial = degree >= 1, noise > 0 and n > d+1 (optimality rather than interpolation); distinct by (kind, degree, n, sigma, first/last point)".into();
     rep.assume("at least degree+1 distinct abscissae (ensured by the generator)");
     rep.assume("abscissae in [-2,2], finite responses; cases whose column-scaled Gram matrix has (64*eps + 4*gamma_n)*kappa > 1e-3 are counted as vacuous (only shape, finiteness of predict and Horner evaluation are checked there)");
     rep.assume("optimality bounds are stated relative to ||y|| (a-priori error of normal equations), not relative to ||r|| as DESIGN wrote: the latter is unsound for noise-free data");
@@ -726,6 +904,44 @@ pub fn run(cfg: &Cfg, rep: &mut Report) {
         }
         sweep_case(d, n, kind, rng, rep);
     });
+    // a valid fit after calls outside the quantifier, each history on a thread of its own (stream 5)
+    rep.assume("what a thread did before a fit is outside the quantifier: after calls of fit with slices of different length, an empty slice, fewer than degree+1 points, equal abscissae or a NaN (whose own outcome, panic or value, is recorded and not judged), a valid data set fitted on the same thread — same or new regressor object — must get the least-squares polynomial and agree within 2B with the fit of the same data made before those calls");
+    let na = cfg.pick(294, 5880, 7);
+    par_cases(cfg, rep, 5, na, |i, rng: &mut Rng, rep| after_outside_case(i, cfg.miri(), rng, rep));
+    rep.require("after-outside-call:length-mismatch", 1);
+    rep.require("after-outside-call:compared-with-fresh", 1);
+    if !cfg.lite {
+        rep.require("after-outside-call:degenerate-data", 1);
+        for k in OUTSIDE {
+            rep.require(&format!("after-outside-call:{}", k), 1);
+        }
+        rep.require("after-outside-call:same-object", 1);
+        rep.require("after-outside-call:new-object", 1);
+        rep.require("outside-call:panicked", 1);
+    }
+    // fits inside rayon pools of several sizes against the fit outside any pool (stream 6); not in the interpreter
+    if !cfg.miri() {
+        rep.assume("the size of the ambient rayon pool is not part of the quantifier: the same data fitted inside ThreadPool::install of 1, 2, 33, 48, 64 and 128 threads must give the least-squares polynomial and agree within 2B (not bitwise) with the fit outside any pool");
+        let sizes: &[usize] = if cfg.lite { &[2, 48] } else { &POOL_SIZES };
+        let mut pools: Vec<(usize, rayon::ThreadPool)> = Vec::new();
+        for &t in sizes {
+            match rayon::ThreadPoolBuilder::new().num_threads(t).build() {
+                Ok(p) => pools.push((t, p)),
+                Err(e) => rep.inconclusive(format!("C14: could not build a rayon pool of {} threads: {}", t, e)),
+            }
+        }
+        let np = cfg.pick(168, 2800, 7);
+        par_cases(cfg, rep, 6, np, |i, rng: &mut Rng, rep| pool_case(i, &pools, rng, rep));
+        for &t in sizes {
+            rep.require(&format!("pool:threads={}", t), 1);
+        }
+        rep.require("pool:compared-with-fresh", 1);
+        rep.require("pool:n>=1024", 1);
+        if !cfg.lite {
+            rep.require("pool:n<256", 1);
+            rep.require("pool:256<=n<1024", 1);
+        }
+    }
     for d in 0..7usize {
         let per_pass = if cfg.lite { 1 } else { (2000 - d) as u64 };
         rep.require(&format!("sweep:deg={}", d), per_pass * if cfg.thorough() && !cfg.lite { 4 } else { 1 });
